@@ -649,6 +649,41 @@ func (c *EvalCtx) call(n *Node) Val {
 		}
 		a := t.Frags[0].Atom
 		return subAtom(a, c.evalTerm(n.Kids[1]), c.evalTerm(n.Kids[2]), mkVar("len!"+a, SInt))
+	case "branches_agree", "first_branch_type":
+		sl, ok := arg(0).(SliceV)
+		if !ok || sl.Len_ == 0 {
+			specErr(n, "%s: non-empty slice of types expected", n.Name)
+		}
+		typeList := func(k int) []string {
+			r := c.st.load(sl.Arr.sub(sl.Lo + k)).(Ref)
+			tl := c.sel(n, r, "Type").(SliceV)
+			var out []string
+			for i := 0; i < tl.Len_; i++ {
+				s, _ := c.st.load(tl.Arr.sub(tl.Lo + i)).(Text).concrete()
+				out = append(out, s)
+			}
+			return out
+		}
+		first := typeList(0)
+		if n.Name == "first_branch_type" {
+			// the type of branch 0 by the rules above (one level: branches carry plain type lists)
+			switch {
+			case len(first) == 1:
+				return lit(first[0])
+			case len(first) == 2 && (first[0] == "null") != (first[1] == "null"):
+				if first[0] == "null" {
+					return lit(first[1])
+				}
+				return lit(first[0])
+			}
+			return lit("null")
+		}
+		for k := 1; k < sl.Len_; k++ {
+			if strings.Join(typeList(k), ",") != strings.Join(first, ",") {
+				return tFalse
+			}
+		}
+		return tTrue
 	case "cmp_equal":
 		return mkVar("cmpeq!"+refTag(arg(0))+"!"+refTag(arg(1)), SBool)
 	case "cmp_options_only":
